@@ -51,6 +51,13 @@ pub enum MOp {
     Wait(u32),
     /// the terminal now reports this many rows (1..=the rows it was created with; C19 only)
     Resize(u8),
+    /// a bar the program still holds is given to the same MultiProgress again (handle, way 0 add /
+    /// 1 insert_before / 2 insert_after, anchor): for a member this has no effect (as documented), a
+    /// removed bar becomes a member again
+    Readd(u16, u8, u16),
+    /// ProgressBar::println from a destructor that runs while the calling thread unwinds from a panic
+    /// (a guard that logs the failure of its task); the panic is caught and the program carries on
+    BarPrintlnUnwinding(u16, String),
 }
 
 #[derive(Debug, Clone, Serialize, Deserialize)]
@@ -335,6 +342,11 @@ pub struct Interp {
     pub bottom_empty_frame_seen: bool,
     /// the target has a refresh rate: draw attempts may be refused
     pub limited: bool,
+    /// a line printed through a member while its thread was unwinding has not been painted yet (nothing
+    /// is painted during a panic): the next draw of the MultiProgress paints it, forced
+    pub pending_text: bool,
+    /// number of log lines that existed before the pending ones
+    pub pending_from: usize,
 }
 
 /// What happened in one op, for the property-specific checks.
@@ -389,7 +401,7 @@ impl Interp {
             None => ProgressDrawTarget::term_like(vt.boxed()),
         };
         let mp = MultiProgress::with_draw_target(target);
-        Interp { vt, mp: Some(mp), handles: vec![], model: Model::default(), cols, rows, cut_to_height: false, stale_since_remove: false, stale_reap_seen: false, empty_suspend_line_seen: false, bottom_empty_frame_seen: false, limited: c.hz.is_some() }
+        Interp { vt, mp: Some(mp), handles: vec![], model: Model::default(), cols, rows, cut_to_height: false, stale_since_remove: false, stale_reap_seen: false, empty_suspend_line_seen: false, bottom_empty_frame_seen: false, limited: c.hz.is_some(), pending_text: false, pending_from: 0 }
     }
 
     fn entry_mut(&mut self, tag: usize) -> Option<&mut Entry> {
@@ -435,8 +447,14 @@ impl Interp {
                 sel($s)
             }};
         }
-        if self.model.bottom_ever && matches!(op, MOp::Drop(_) | MOp::MpClear | MOp::MpSuspend(_) | MOp::BarSuspend(..) | MOp::MpPrintln(_) | MOp::BarPrintln(..)) {
+        if self.model.bottom_ever && matches!(op, MOp::Drop(_) | MOp::MpClear | MOp::MpSuspend(_) | MOp::BarSuspend(..) | MOp::MpPrintln(_) | MOp::BarPrintln(..) | MOp::BarPrintlnUnwinding(..)) {
             self.model.bottom_loose = true;
+        }
+        if self.pending_text && matches!(op, MOp::MpClear | MOp::MpSuspend(_) | MOp::BarSuspend(..)) {
+            // (clear paints no text and a suspend closure writes before the redraw: where the pending line
+            // goes relative to them is not specified - not issued while a line is pending)
+            out.skipped = true;
+            return Ok(out);
         }
         let has_zombie = self.model.entries.iter().any(|e| e.zombie);
         let log_before = self.model.log.clone();
@@ -683,6 +701,9 @@ impl Interp {
                 let i = need_handle!(*s);
                 self.handles[i].pb.set_tab_width(*w as usize);
                 let tag = self.handles[i].tag;
+                if let Some(e) = self.entry_mut(tag) {
+                    e.st.tab_width = *w as usize;
+                }
                 paint = self.handles[i].member;
                 self.redraw(tag);
             }
@@ -705,6 +726,66 @@ impl Interp {
                     paint = false;
                 }
             }
+            MOp::BarPrintlnUnwinding(s, t) => {
+                let i = need_handle!(*s);
+                struct LogOnDrop(ProgressBar, String);
+                impl Drop for LogOnDrop {
+                    fn drop(&mut self) {
+                        self.0.println(&self.1);
+                    }
+                }
+                let guard = LogOnDrop(self.handles[i].pb.clone(), t.clone());
+                let r = catch(move || {
+                    let _guard = guard;
+                    panic!("scripted task failure");
+                });
+                debug_assert!(r.is_err());
+                if self.handles[i].member {
+                    let tag = self.handles[i].tag;
+                    self.redraw(tag);
+                    if !self.pending_text {
+                        self.pending_from = self.model.log.len();
+                    }
+                    self.model.log.extend(println_lines(t));
+                    self.pending_text = true;
+                    out.note = "bar_println_while_unwinding";
+                }
+                paint = false;
+            }
+            MOp::Readd(s, how, anchor) => {
+                let i = need_handle!(*s);
+                let members: Vec<usize> = self.handles.iter().enumerate().filter(|(_, h)| h.member).map(|(i, _)| i).collect();
+                let tag = self.handles[i].tag;
+                let was_member = self.handles[i].member;
+                let len = self.model.entries.len();
+                let clone = self.handles[i].pb.clone();
+                let (back, at) = match how % 3 {
+                    1 | 2 if !members.is_empty() => {
+                        let h = &self.handles[members[pick(*anchor, members.len())]];
+                        let pos = self.model.entries.iter().position(|e| e.tag == h.tag).expect("member in model");
+                        if how % 3 == 1 {
+                            (mp.insert_before(&h.pb, clone), pos)
+                        } else {
+                            (mp.insert_after(&h.pb, clone), pos + 1)
+                        }
+                    }
+                    _ => (mp.add(clone), len),
+                };
+                drop(back);
+                if was_member {
+                    // "Adding a progress bar that is already a member of the MultiProgress will have no effect."
+                    out.note = "member_added_again";
+                } else {
+                    let p = self.model.detached.iter().position(|e| e.tag == tag).expect("handle in model");
+                    let mut entry = self.model.detached.remove(p);
+                    entry.drawn = None;
+                    entry.on_screen = false;
+                    self.model.entries.insert(at, entry);
+                    self.handles[i].member = true;
+                    out.note = "removed_bar_added_again";
+                }
+                paint = false;
+            }
             MOp::Resize(r) => {
                 let grid_rows = self.vt.lock().grid.rows;
                 let r = (*r as usize).clamp(1, grid_rows);
@@ -724,6 +805,14 @@ impl Interp {
             }
         }
         out.frames = self.vt.take_frames();
+        if self.pending_text && paint && !matches!(op, MOp::BarPrintlnUnwinding(..)) {
+            // the pending line makes this draw a forced text draw
+            text_paint = true;
+            self.pending_text = false;
+            if self.model.bottom_ever {
+                self.model.bottom_loose = true;
+            }
+        }
         // on a rate-limited target an ordinary draw attempt that the limiter refuses returns before
         // MultiState::draw reaps anything or paints
         if self.limited && out.frames.is_empty() && !text_paint {
@@ -851,9 +940,10 @@ pub fn mop_strategy(cols: usize, with_wait: bool) -> BoxedStrategy<MOp> {
         1 => (s(), proptest::collection::vec("[a-z]{0,5}", 0..3)).prop_map(|(i, l)| MOp::BarSuspend(i, l)),
         1 => any::<bool>().prop_map(MOp::SetAlignment),
         1 => (s(), 0u8..12).prop_map(|(i, w)| MOp::SetTabWidth(i, w)),
+        1 => (s(), 0u8..3, s()).prop_map(|(i, h, a)| MOp::Readd(i, h, a)),
     ];
     if with_wait {
-        prop_oneof![12 => base, 1 => prop_oneof![Just(0u32), 1u32..50, 50u32..3000].prop_map(MOp::Wait)].boxed()
+        prop_oneof![24 => base, 2 => prop_oneof![Just(0u32), 1u32..50, 50u32..3000].prop_map(MOp::Wait), 1 => (s(), "[a-z]{1,4}").prop_map(|(i, t)| MOp::BarPrintlnUnwinding(i, t))].boxed()
     } else {
         base.boxed()
     }
@@ -881,7 +971,8 @@ pub fn decode_mop(u: &mut FuzzInput, cols: usize, flavour: u8) -> MOp {
         _ => u.short(cols),
     };
     loop {
-        let op = match u.n(40) {
+        let op = match u.n(41) {
+            41 => MOp::Readd(s(u), u.n(2) as u8, s(u)),
             0..=4 => MOp::Add(decode_spec(u, cols, flavour == 2)),
             5 => MOp::Insert(u.n(5) as u8, decode_spec(u, cols, flavour == 2)),
             6 => MOp::InsertFromBack(u.n(5) as u8, decode_spec(u, cols, flavour == 2)),
@@ -904,6 +995,7 @@ pub fn decode_mop(u: &mut FuzzInput, cols: usize, flavour: u8) -> MOp {
             _ => MOp::SetAlignment(u.bool()),
         };
         let ok = match flavour {
+            1 | 2 if matches!(op, MOp::Readd(..)) => false,
             1 => !matches!(op, MOp::Remove(_) | MOp::Insert(..) | MOp::InsertFromBack(..) | MOp::MpPrintln(_) | MOp::BarPrintln(..) | MOp::MpClear | MOp::MpSuspend(_) | MOp::BarSuspend(..) | MOp::SetAlignment(_)),
             2 => !matches!(op, MOp::MpSuspend(_) | MOp::BarSuspend(..) | MOp::SetAlignment(_) | MOp::BarPrintln(..) | MOp::Insert(..) | MOp::InsertFromBack(..) | MOp::InsertBefore(..) | MOp::InsertAfter(..)),
             _ => true,
